@@ -796,7 +796,9 @@ def _str(interp, args, kwargs):
         from .xmlmodel import NumText
 
         interp.ctx.used_models.add("str(number): text denoting exactly that number (repr round-trips); floats may print in exponent form")
-        return NumText(v, "int" if is_int_type(v.ty) else "pyrepr", v)
+        t = NumText(v, "int" if is_int_type(v.ty) else "pyrepr", v)
+        t.ctx = interp.ctx
+        return t
     if type(v) is Sym and v.ty is bool:
         return "True" if interp.truth(v) else "False"
     if type(v).__name__ == "NumText" or type(v).__module__ == "pyvc.tokstr":
@@ -812,6 +814,34 @@ def _str(interp, args, kwargs):
     if isinstance(v, PyExc):
         return str(v.exc_args[0]) if v.exc_args else ""
     return str(*args, **kwargs)
+
+
+def _format(interp, args, kwargs):
+    """builtins.format(f, '.<d>f') of a symbolic float: plain decimal text denoting f rounded to d decimals (T3)"""
+    import re as _re
+
+    v, spec = args[0], (args[1] if len(args) > 1 else "")
+    if type(v) is not Sym:
+        if has_sym_deep(v):
+            raise Unsupported("format() of a model value")
+        return format(*args, **kwargs)
+    m = _re.fullmatch(r"\.(\d+)f", spec) if isinstance(spec, str) else None
+    if m is None or not is_float_type(v.ty):
+        raise Unsupported("format(%s, %r)" % (v.ty, spec))
+    from .xmlmodel import NumText
+
+    d = int(m.group(1))
+    k = 10 ** d
+    ctx = interp.ctx
+    f = z3.simplify(real_term(v))
+    n = z3.Function("format_round_%d" % d, z3.RealSort(), z3.IntSort())(f)  # a function of the value: deterministic
+    r = z3.ToReal(n) / k
+    a = z3.If(f >= 0, f, -f)
+    ctx.solver.add(r - f <= z3.Q(1, 2 * k), f - r <= z3.Q(1, 2 * k), z3.Implies(a >= z3.RealVal(2 ** 53), r == f))
+    ctx.used_models.add("format(f, '.<d>f'): plain decimal text denoting f rounded to d decimals; a float >= 2^53 is an integer and prints exactly")
+    out = NumText(Sym(r, float), "plain", v, note="format .%df" % d)
+    out.scaled = (n, k)
+    return out
 
 
 def has_sym_deep(v):
@@ -1531,6 +1561,7 @@ def build_models():
         builtins.type: _type,
         builtins.len: _len,
         builtins.abs: _abs,
+        builtins.format: _format,
         builtins.min: _minmax(False),
         builtins.max: _minmax(True),
         builtins.sum: _sum,
